@@ -160,6 +160,9 @@ func canonSelectorText(s string) string {
 			if k := strings.LastIndexByte(val, ' '); k >= 0 {
 				val, flag = val[:k], val[k:]
 			}
+			if val == "" {
+				val = "\x00INVALID: an unquoted attribute value is an identifier, which cannot be empty" // [a=] matches nothing and drops the rule
+			}
 			inner = inner[:eq+1] + "\"" + val + "\"" + flag
 		}
 		b.WriteString("[" + inner + "]")
@@ -354,7 +357,10 @@ func (g *cssGen) ws1() string { return g.r.Pick([]string{" ", "  ", "\n", " /**/
 
 func (g *cssGen) num() string {
 	r := g.r
-	switch r.Intn(14) {
+	switch r.Intn(15) {
+	case 13:
+		// a mantissa with leading or trailing zeros and an exponent
+		return r.Pick([]string{"0.", "00.", "0.0", "."}) + fmt.Sprint(r.Range(1, 99)) + r.Pick([]string{"", "0"}) + r.Pick([]string{"e", "E", "e+"}) + fmt.Sprint(r.Range(1, 3))
 	case 0:
 		return "0"
 	case 1:
@@ -851,7 +857,7 @@ func (g *cssGen) declBlock(n int) string {
 func (g *cssGen) selector() string {
 	r := g.r
 	simple := func() string {
-		return r.Pick([]string{"a", "div", "P", "LI", "*", ".c", ".Cls", "#id", "#ID", "a.b", "ul > li", "a + b", "a ~ b", "h1 h2", "a:hover", "a::before", "p:first-line", "li:nth-child(2n + 1)", "li:nth-child( odd )", "a:not(.b)", "a:not( .b , .c )", "input[type=text]", "input[type=\"text\"]", "a[href^='http']", "a[title=\"a b\"]", "a[data-x=\"1\"]", "[lang|=en]", "a[href$=\".PDF\" i]", "*|a", "svg|circle", ":root", "::selection", "a::AFTER", ".\\31 0", "#a\\.b", "a[b=\"\"]", "a[b='c d']", ":is(a, b) c", "a:where(.x)"})
+		return r.Pick([]string{"a", "div", "P", "LI", "*", ".c", ".Cls", "#id", "#ID", "a.b", "ul > li", "a + b", "a ~ b", "h1 h2", "a:hover", "a::before", "p:first-line", "li:nth-child(2n + 1)", "li:nth-child( odd )", "a:not(.b)", "a:not( .b , .c )", "input[type=text]", "input[type=\"text\"]", "a[href^='http']", "a[title=\"a b\"]", "a[data-x=\"1\"]", "[lang|=en]", "a[href$=\".PDF\" i]", "*|a", "svg|circle", ":root", "::selection", "a::AFTER", ".\\31 0", "#a\\.b", "a[b=\"\"]", "a[b='c d']", "a[b=c s]", "a[b=\"c\" S]", "a[b=c i]", "input[value=\"\" i]", "img[alt='']", ":is(a, b) c", "a:where(.x)"})
 	}
 	n := r.Range(1, 3)
 	var ss []string
